@@ -150,7 +150,50 @@ def generate(rng, tier, index):
             ops.append({"s": 0, "op": "scribble", "id": i, "val": rng.choice([None, True, 0, 5])})
         ops.append({"s": 0, "op": "solve"})
     sc["ops"] = add_fault(rng, ops) if not scale else ops
+    if not scale:
+        sc["ops"] = add_rejected(rng, sc["ops"])
     return sc
+
+
+def add_rejected(rng, ops, p=0.1):
+    """In one scenario out of ten the program makes an API call that the Solver rejects (ValueError /
+    TypeError), catches the exception and carries on with the same Solver: a duplicate answer key
+    (alone, or after variables that are not keys yet - whether those get registered by the
+    rejected call is left open, they are 'maybe keys' from then on), a non-variable answer key, a
+    non-boolean constraint, an integer array with lo > hi."""
+    r = random.Random(rng.random())  # one draw: the rest of the scenario stream is unchanged
+    if r.random() >= p:
+        return ops
+    n_vars = sum(1 for o in ops if o["op"] in ("bool_var", "int_var"))
+    ever_keys = {i for o in ops if o["op"] == "add_key" for i in o["ids"]}
+    at = [j for j, o in enumerate(ops) if o["op"] in ("find_answer", "solve")]
+    if not at:
+        return ops
+    j = r.choice(at)  # right before a query
+    decl = 0
+    keys = set()
+    for o in ops[:j]:
+        if o["op"] in ("bool_var", "int_var"):
+            decl += 1
+        elif o["op"] == "add_key":
+            keys.update(o["ids"])
+    what = r.choice(["key_dup", "key_dup", "key_dup", "key_bad", "ensure_int", "int_array"])
+    if what == "key_dup":
+        free = [i for i in range(decl) if i not in ever_keys]
+        new = r.sample(free, min(len(free), r.choice([0, 1, 1, 2])))
+        if keys:
+            dup = r.choice(sorted(keys))
+        elif new:
+            dup = new[0]  # the same variable twice in one call
+        else:
+            return ops
+        rej = {"s": 0, "op": "rejected", "what": "key_dup", "new": new, "dup": dup, "pos": r.choice(["last", "last", "first", "middle"])}
+    elif what == "int_array":
+        lo = r.randint(-3, 3)
+        rej = {"s": 0, "op": "rejected", "what": "int_array", "lo": lo, "hi": lo - r.randint(1, 3)}
+    else:
+        rej = {"s": 0, "op": "rejected", "what": what}
+    return ops[:j] + [rej] + ops[j:]
 
 
 def add_fault(rng, ops, p=0.1):
@@ -215,6 +258,20 @@ def valid(sc):
                     keys.add(i)
             elif k == "arm_fault":
                 if op["n"] < 1 or op.get("torn", 0) < 0:
+                    return False
+            elif k == "rejected":
+                w = op["what"]
+                if w == "key_dup":
+                    new = op["new"]
+                    if len(set(new)) != len(new) or any(not 0 <= i < len(decls) or i in keys for i in new):
+                        return False
+                    if not (op["dup"] in keys or op["dup"] in new):
+                        return False
+                    keys.update(new)  # maybe keys: never registered again later
+                elif w == "int_array":
+                    if op["lo"] <= op["hi"]:
+                        return False
+                elif w not in ("key_bad", "ensure_int"):
                     return False
             elif k == "scribble":
                 if not 0 <= op["id"] < len(decls):
@@ -466,6 +523,7 @@ def run(sc) -> RunResult:
     decls = []
     constraints = []
     keys = set()
+    maybe_keys = set()  # variables named in a rejected add_answer_key call before the offending one
     saved_cfg = (cspuz.config.backend_path, cspuz.config.solver_timeout)
     cspuz.config.backend_path = None
     cspuz.config.solver_timeout = None
@@ -485,6 +543,39 @@ def run(sc) -> RunResult:
                         z3cap["fault_kind"] = op.get("kind", "unknown")
                         z3cap["result"] = res
                         res.log("op", n_op, "arm_fault", op["n"], op.get("torn", 0), op.get("kind"))
+                        continue
+                    if k == "rejected":
+                        w = op["what"]
+                        try:
+                            if w == "key_dup":
+                                new = [vars_[i] for i in op["new"]]
+                                d = vars_[op["dup"]]
+                                if op["dup"] in op["new"]:
+                                    args = new + [d]
+                                elif op.get("pos") == "first":
+                                    args = [d] + new
+                                elif op.get("pos") == "middle" and new:
+                                    args = new[:1] + [d] + new[1:]
+                                else:
+                                    args = new + [d]
+                                solver.add_answer_key(*args)
+                            elif w == "key_bad":
+                                solver.add_answer_key(5)
+                            elif w == "ensure_int":
+                                solver.ensure(7)
+                            else:
+                                solver.int_array(2, op["lo"], op["hi"])
+                        except (ValueError, TypeError) as e:
+                            res.hit("fault:api_call_rejected:" + w)
+                            res.log("op", n_op, "rejected", w, type(e).__name__)
+                        else:
+                            # accepted after all: what was registered / posted / declared is no longer known
+                            res.hit("inconclusive:rejected_call_was_accepted:" + w)
+                            res.inconclusive = True
+                            res.log("op", n_op, "rejected", w, "accepted")
+                            break
+                        if w == "key_dup":
+                            maybe_keys.update(op["new"])
                         continue
                     if k == "bool_var":
                         vars_.append(solver.bool_var())
@@ -513,7 +604,7 @@ def run(sc) -> RunResult:
                             peer.fault_in = z3cap["fault_in"] = None
                         res.hit("perturb:find_answer_between")
                     elif k == "solve":
-                        bound = 8 + 3 * sum((2 if decls[i]["t"] == "b" else decls[i]["hi"] - decls[i]["lo"] + 1) for i in keys)
+                        bound = 8 + 3 * sum((2 if decls[i]["t"] == "b" else decls[i]["hi"] - decls[i]["lo"] + 1) for i in keys | maybe_keys)
                         ctx.reset_calls()
                         ctx.cap = bound
                         peer.calls = 0
